@@ -183,6 +183,14 @@ func c01Degenerate() []string {
 		"(*mod).values", "b = [*mod]; b[0].values", "b = *mod; b.rwMutex.Lock()", "make(type E, *mod); e = make([]E, 1); e[0].values", "x = make(type T, 1); x.t", "x = make(type T, 1); x.t.Size_ = 100",
 		"x = make(type T, \"\"); x.t.Equal(nil, nil)", "x = make(type T, 1); *x.t.GCData", "x = make(type T, 1); y = *x; y.t.Str", "go func() { x = make(type T, 1); [x.t] }(); hzero()",
 		"try { throw 1 } catch e { x = make(type U, e); m = x.Method(0); m.Func.ptr }", "try { throw 1 } catch e { e.Message }", "try { throw 1 } catch e { x = *e; x.message }", "pt.a", "x = *pt; x.hidden",
+		// entries deleted while the map is being ranged over; values that refer to themselves; comparisons of uncomparable contents
+		"m = {\"a\": 1, \"b\": 2}; for k, v in m { delete(m, \"a\"); delete(m, \"b\"); x = v }", "m = {\"a\": 1, \"b\": 2}; for k, v in m { delete(m, \"a\"); delete(m, \"b\"); [v] }",
+		"m = {\"a\": 1, \"b\": 2}; for k, v in m { delete(m, \"a\"); delete(m, \"b\"); v == 1 }", "m = map[string]int64{\"a\": 1, \"b\": 2}; for k, v in m { delete(m, \"a\"); delete(m, \"b\"); probe(v) }",
+		"m = {\"a\": 1, \"b\": 2}; r = []; for k, v in m { m = {}; r += v }", "m = {1: 1, 2: 2, 3: 3}; for k, v in m { for j in [1, 2, 3] { delete(m, j) }; &v }",
+		"x = nil; p = &x; *p = p; if p { 1 }", "x = nil; p = &x; *p = p; p + 1", "x = nil; p = &x; *p = p; [1, 2][p]", "x = nil; p = &x; *p = p; p == p", "x = nil; p = &x; *p = p; for p { break }",
+		"x = nil; p = &x; *p = p; \"a\" * p", "x = nil; p = &x; *p = p; p ? 1 : 2", "x = nil; p = &x; *p = p; make([]int64, p)", "x = nil; p = &x; *p = p; !p",
+		"x = [1, 2]; p = &x; p == p", "a = make(struct{A interface}); a.A = [1]; b = a; a == b", "a = make(struct{A interface}); a.A = {}; a in [a]",
+		"a = make(struct{A interface}); a.A = func() { }; switch a {\ncase a: 1\n}", "f = func() { }; p = &f; p == p", "m = {}; p = &m; [p] == [p]",
 		"ch <- ch", "ch2 = make(chan int64); ch2 <- \"s\"", "x, ok = <- nothing", "x, ok = <- ch", "for x in ch { break }", "go probe(1)", "go nothing()", "go n", "go mod.v()",
 	}
 }
